@@ -396,6 +396,21 @@ class C16(Property):
             if i % 5 == 4:
                 # the template as a string of fragments: brackets in every position
                 tpl = ''.join(rng.choice(FRAGMENTS) for _ in range(rng.randint(1, 9)))
+            elif i % 7 == 6:
+                # one property mentioned twice: by a placeholder that takes any property, and by one that demands a data type
+                # the property does not have (in either order; each mention has to be checked on its own)
+                x = rng.choice(['s', 't', 'm', 'n', 'f', 'g'])
+                free = rng.choice([['ph', None, [x]], ['ph', 'merge', [x]], ['ph', 'empty', [x, 'nothing']],
+                                   ['ph', 'unless_empty', [x, 'present']], ['ph', 'url', [x, 'link']]])
+                typed = rng.choice([['ph', 'date_time', [x, 'second']], ['ph', 'time_span', ['d1', x]], ['ph', 'duration', [x, 'd2']],
+                                    ['ph', 'boolean_on_off', [x]], ['ph', 'boolean_is_is_not', [x]],
+                                    ['ph', 'boolean_string_choice', [x, 'yes', 'no']]])
+                pair = [free, ['text', rng.choice(TEXTS[:12])], typed]
+                if rng.random() < 0.4:
+                    pair.reverse()
+                if rng.random() < 0.3:
+                    pair[2] = ['scope', [pair[2]]]
+                tpl = render(pair)
             else:
                 tpl = render(gen_nodes(rng, 0, bias))
             yield {'template': tpl, 'events': [gen_event(rng) for _ in range(3)], 'rep': ['plain', 'element', 'parsed'][i % 3]}
